@@ -25,13 +25,18 @@ def c02_setup(eng):
     def lookup(e, obj, *a, **k):
         raw = k.get('barcode', a[0] if a else None)
         ok = fresh(BOOL, 'barcode_known')
+        log = e.ghost.setdefault('lookups', [])
+        e.spec_env['LOOKUPS'] = log
         if e.branch(ok.z):
-            bc = named(STR, 'corrected_barcode')
+            nth = len(log)
+            bc = named(STR, 'corrected_barcode' + ('_%d' % nth if nth else ''))
             rz = raw.z if isinstance(raw, Sym) else z3.StringVal(raw)
             e.assume(z3.Length(bc.z) == z3.Length(rz))        # C03: a match has the length of the query
             e.spec_env['CORRECTED'] = bc
             e.spec_env['CELL_INDEX'] = named(STR, 'cell_index')
+            log.append((raw, True, bc, k.get('alias')))
             return (e.spec_env['CELL_INDEX'], bc, named(INT, 'hamming_distance'))
+        log.append((raw, False, None, k.get('alias')))
         return (None, None, None)
     stubs.STUBS['BarcodeParser'] = {'methods': {'getIndexCorrectedBarcodeAndHammingDistance': lookup}, 'props': {}, 'setters': {}}
     parser = Obj('BarcodeParser', {})
@@ -125,6 +130,111 @@ UNITS += [strategy('SCCHIC_384w_c8_u3', 2, (1, 0), LIG(11, 13), 'scCHIC: skip on
           # DamID2: "do map the first base of the barcode": the last barcode base is kept in the insert (SKIP[0] = -1)
           strategy('DamID2', 2, (-1, 0), LIG(11, 13), 'DamID2: the last barcode base stays in the emitted read (keep-overlap 1)')]
 
+UNITS += [strategy('DamID2_NO_OVERHANG', 2, (-1, 0), LIG(11, 13), 'DamID2 without CA overhang: keep-overlap 1, two ligation bases recorded'),
+          strategy('SCCHIC_384w_c8_u3_direct_ligation_SINGLE_END', 1, (1,), LIG(11, 13), 'scCHIC direct ligation, single end')]
+
+
+# restriction bisulfite: UMI 0..8, barcode 8..16, enzyme id 16..19 (tags ES/eq), ISPCR 19..34 (tag IS): 18 further bases are
+# recorded before the insert starts
+RBS = {
+    'enzyme_and_ispcr_tags': 'implies(True, (lambda s, out: all(o.tags["ES"] == R[0].sequence[16:19] and o.tags["eq"] == ENC(R[0].qual[16:19]) '
+                             'and o.tags["IS"] == R[0].sequence[19:34] and o.tags["QT"] == ENC(R[0].qual[8:16]) for o in out))(result[0], result[1]))'}
+UNITS += [strategy('Nla_384w_u8_c8_ad3_is15', 2, (18, 0), RBS, 'restriction bisulfite: enzyme id and ISPCR recorded in ES/eq/IS')]
+
+
+# scattered layout (DamID2_SCA): UMI 0..3 + 7..10, barcode 3..7 + 10..14, insert from 14; the first two insert bases are also
+# recorded as ligation tag
+def c02_setup_short_headers(eng):
+    c02_setup(eng)
+    for r in eng.spec_env['R']:
+        for p_ in segstr.parts_of(r.attrs['header']):
+            if isinstance(p_, Sym):
+                eng.assume(z3.Length(p_.z) <= 6)          # the header fits in a read name (precondition, see C04)
+
+
+def custom(cls_name, ctor, ensures, note, n_records=2, setup=None):
+    src = '''
+s = %s
+out = s.demultiplex(R[:%d])
+return (s, out)
+''' % (ctor, n_records)
+    return Contract(
+        PROP, FL + '::DemultiplexingStrategyLoader', name='layout[%s]' % cls_name,
+        harness=src, params={}, setup=setup or c02_setup,
+        ensures={k: 'implies(True, (lambda s, out: %s)(result[0], result[1]))' % v for k, v in ensures.items()},
+        raises={'NonMultiplexable': 'True'},
+        assumptions=['barcode lookup through its contract (C03): a match has the length of the query; phred encoding opaque (C04)',
+                     'FASTQ records well formed: len(sequence) == len(qualities), any length incl. 0 (A7)', note],
+    )
+
+
+SCA_UMI = 'R[0].sequence[0:3] + R[0].sequence[7:10]'
+UNITS += [
+    custom('DamID2_SCA', 'dm.DamID2_SCA(barcodeFileParser=PARSER, indexFileParser=None, indexFileAlias=None)', {
+        'raw_barcode_tag': 'all(o.tags["bc"] == R[0].sequence[3:7] + R[0].sequence[10:14] for o in out)',
+        'cell_tags': 'all(o.tags["BC"] == CORRECTED and o.tags["bi"] == CELL_INDEX and o.tags["MX"] == s.shortName for o in out)',
+        'umi_tags': 'implies(len(%s) > 0, all(o.tags["RX"] == %s and o.tags["RQ"] == ENC(R[0].qual[0:3] + R[0].qual[7:10]) for o in out))'
+                    % (SCA_UMI, SCA_UMI),
+        'ligation_tags': 'all(o.tags["lh"] == R[0].sequence[14:16] and o.tags["lq"] == ENC(R[0].qual[14:16]) for o in out)',
+        'emitted_stretch': 'out[0].sequence == R[0].sequence[14:] and out[0].qualities == R[0].qual[14:] and '
+                           'out[1].sequence == R[1].sequence and out[1].qualities == R[1].qual and all(out[m].plus == R[m].plus for m in range(2))',
+        'one_output_per_mate': 'len(out) == 2',
+    }, 'declared layout: the slice tuples the class passes to ScatteredUmiBarcodeDemuxMethod'),
+    custom('IlluminaBaseDemultiplexer', 'IlluminaBaseDemultiplexer(indexFileParser=None)', {
+        # bulk: nothing is cut off, the whole mate is emitted with its own qualities
+        'whole_mate_emitted': 'all(out[m].endswith("\\n" + R[m].sequence + "\\n" + R[m].plus + "\\n" + R[m].qual + "\\n") and '
+                              'out[m].startswith("@") for m in range(2))',
+        'one_output_per_mate': 'len(out) == 2',
+    }, 'bulk demultiplexing: records are returned as FASTQ text; header fields short enough for the header to fit (C04)',
+        setup=c02_setup_short_headers),
+]
+
+
+# ------------------------------------------------------------------------------ TCHIC (SCCHIC_384w_c8_u3_cs2): scCHIC layout; a pair
+# recognised as transcriptome bleed-through gets read 2 trimmed.  Whatever is trimmed, the emitted read 2 stays a prefix of
+# mate 2 with the qualities of exactly those bases.
+RCOMP = z3.Function('reverse_complement', z3.StringSort(), z3.StringSort())
+
+
+def tchic_setup(eng):
+    c02_setup(eng)
+    cell = named(STR, 'cell_index')
+    stubs.STUBS['BarcodeParser']['methods']['__getitem__'] = lambda e, o, k: {'ACGTACGT': cell}
+    eng.loader.call_hooks['singlecellmultiomics.utils.sequtils.reverse_complement'] = \
+        lambda e, f, a, k, n: Sym(RCOMP(a[0].z if isinstance(a[0], Sym) else z3.StringVal(a[0])), STR)
+
+    def re_compile(e, a, k, n):
+        o = Obj('Regex', {'pattern': a[0]})
+        o.vc_immutable = True
+        return o
+
+    def re_sub(e, o, repl, string, *a, **k):
+        # re.compile('[GA]*$').sub('', s): s without a (maximal) suffix of G/A characters - a prefix of s (assumed contract)
+        if o.attrs['pattern'] != '[GA]*$' or repl != '':
+            from pyvc.engine import Unsupported
+            raise Unsupported('regex %r' % o.attrs['pattern'])
+        t = fresh(STR, 're_sub')
+        e.assume(z3.PrefixOf(t.z, string.z if isinstance(string, Sym) else z3.StringVal(string)))
+        return t
+    stubs.STUBS['Regex'] = {'methods': {'sub': re_sub}, 'props': {}, 'setters': {}}
+    externals.EXTRA['re.compile'] = re_compile
+
+
+UNITS.append(custom(
+    'SCCHIC_384w_c8_u3_cs2', 'dm.SCCHIC_384w_c8_u3_cs2(barcodeFileParser=PARSER, indexFileParser=None, indexFileAlias=None)', {
+        'raw_barcode_tag': 'all(o.tags["bc"] == R[0].sequence[3:11] for o in out)',
+        'cell_tags': 'all(o.tags["BC"] == CORRECTED and o.tags["bi"] == CELL_INDEX and o.tags["MX"] == s.shortName for o in out)',
+        'umi_tags': 'all(o.tags["RX"] == R[0].sequence[0:3] and o.tags["RQ"] == ENC(R[0].qual[0:3]) for o in out)',
+        'ligation_tags': 'all(o.tags["lh"] == R[0].sequence[11:13] and o.tags["lq"] == ENC(R[0].qual[11:13]) for o in out)',
+        'emitted_read1': 'out[0].sequence == R[0].sequence[12:] and out[0].qualities == R[0].qual[12:] and out[0].plus == R[0].plus',
+        # read 2: a prefix of mate 2, bases and qualities index-aligned
+        'emitted_read2_is_a_prefix_of_mate_2_with_its_own_qualities':
+            'R[1].sequence.startswith(out[1].sequence) and out[1].qualities == R[1].qual[:len(out[1].sequence)] and out[1].plus == R[1].plus',
+        'one_output_per_mate': 'len(out) == 2',
+    }, 'TCHIC: scCHIC layout (skip one base after the barcode); re.sub of a trailing [GA]* run and reverse_complement through '
+       'assumed contracts; the celseq2 whitelist holds one barcode for the cell', setup=tchic_setup))
+
+
 def layout_replay(cls_name, n_records, skip):
     def replay(inputs, clause):
         """real strategy class, a parser that accepts every barcode, records with the model's sequences"""
@@ -187,9 +297,12 @@ def layout_replay(cls_name, n_records, skip):
     return replay
 
 
-_SKIPS = {'SCCHIC_384w_c8_u3': (1, 0), 'SCCHIC_384w_c8_u3_direct_ligation': (1, 0), 'DamID2': (-1, 0)}
+_SKIPS = {'SCCHIC_384w_c8_u3': (1, 0), 'SCCHIC_384w_c8_u3_direct_ligation': (1, 0), 'DamID2': (-1, 0),
+          'DamID2_NO_OVERHANG': (-1, 0), 'Nla_384w_u8_c8_ad3_is15': (18, 0), 'SCCHIC_384w_c8_u3_direct_ligation_SINGLE_END': (1,)}
 for _u in UNITS:
     _n = _u.name[len('layout['):-1]
+    if _n in ('DamID2_SCA', 'IlluminaBaseDemultiplexer', 'SCCHIC_384w_c8_u3_cs2', 'SCCHIC_384w_c8_u3_pdt') or ';' in _n:
+        continue
     _u.replay = layout_replay(_n, 1 if 'SINGLE_END' in _n else 2, _SKIPS.get(_n, (0, 0)))
 
 
@@ -199,3 +312,187 @@ def extra_units():
     from contracts import c04
     from pyvc.units import share
     return [share(c04.phred, PROP)]
+
+
+# ------------------------------------------------------------------------------ composite strategies (DamID + transcriptome): two
+# demultiplexers look at the same pair; the emitted records are those of one of them.  Bounded: read 1 has a fixed length
+# (the transcriptome insert is pruned of leading T's by a character loop), contents symbolic.
+def composite_setup(r1_len):
+    def setup(eng):
+        c02_setup(eng)
+        eng.assume(z3.Length(eng.spec_env['R'][0].attrs['sequence'].z) == r1_len)
+    return setup
+
+
+def _cat(slices, field):
+    return ' + '.join('R[0].%s[%d:%d]' % (field, a, b) for a, b in slices)
+
+
+def composite_unit(cls_name, dam, tx, r1_len, both):
+    """dam / tx: dict(umi=[(a,b)..], bc=[(a,b)..], start=n) of the two layouts; both: 'dam' | 'tx+damtags' - which records a
+    pair accepted by both demultiplexers yields"""
+    DAM, TX = 'LOOKUPS[0][1]', 'LOOKUPS[1][1]'
+    pruned = ('any(len(out[0].sequence) == len(R[0].sequence) - ({st} + j) and out[0].sequence == R[0].sequence[{st} + j:] and '
+              'out[0].qualities == R[0].qual[{st} + j:] and R[0].sequence[{st}:{st} + j] == "T" * j for j in range({n}))'
+              ).format(st=tx['start'], n=max(1, r1_len - tx['start'] + 1))
+    dam_rec = 'out[0].sequence == R[0].sequence[%d:] and out[0].qualities == R[0].qual[%d:]' % (dam['start'], dam['start'])
+    dam_tags = 'all(o.tags["bc"] == %s and o.tags["RX"] == %s and o.tags["RQ"] == ENC(%s) for o in out)' % (
+        _cat(dam['bc'], 'sequence'), _cat(dam['umi'], 'sequence'), _cat(dam['umi'], 'qual'))
+    tx_tags = 'all(o.tags["bc"] == %s and o.tags["RX"] == %s and o.tags["RQ"] == ENC(%s) for o in out)' % (
+        _cat(tx['bc'], 'sequence'), _cat(tx['umi'], 'sequence'), _cat(tx['umi'], 'qual'))
+    only_dam, only_tx, both_c = '(%s and not %s)' % (DAM, TX), '(%s and not %s)' % (TX, DAM), '(%s and %s)' % (DAM, TX)
+    r2 = lambda lay: ('out[1].sequence == R[1].sequence[%d:] and out[1].qualities == R[1].qual[%d:] and '
+                      'all(out[m].plus == R[m].plus for m in range(2))' % (lay.get('r2_start', 0), lay.get('r2_start', 0)))
+    ens = {
+        'one_output_per_mate': 'len(out) == 2',
+        'damid_pair': 'implies(%s, %s and %s and %s)' % (only_dam, dam_rec, r2(dam), dam_tags),
+        'transcriptome_pair_pruned_of_leading_T': 'implies(%s, %s and %s and %s)' % (only_tx, pruned, r2(tx), tx_tags),
+        'pair_accepted_by_both': 'implies(%s, %s)' % (both_c, ('%s and %s and %s' % (dam_rec, r2(dam), dam_tags)) if both == 'dam'
+                                                      else ('%s and %s and %s' % (pruned, r2(tx), dam_tags))),
+    }
+    u = custom(cls_name, 'dm.%s(barcodeFileParser=PARSER, indexFileParser=None, indexFileAlias=None)' % cls_name, ens,
+               'composite strategy: the two sub-demultiplexers call the barcode lookup once each (DamID first)',
+               setup=composite_setup(r1_len))
+    u.name = 'layout[%s; read 1 of %d bases]' % (cls_name, r1_len)
+    u.bounded = 'read 1 has exactly %d bases (symbolic contents), read 2 any length' % r1_len
+    return u
+
+
+DAMID2 = dict(umi=[(0, 3)], bc=[(3, 13)], start=12)
+CS2 = dict(umi=[(0, 6)], bc=[(6, 14)], start=14, r2_start=6)
+SCA8 = dict(umi=[(0, 3), (7, 10)], bc=[(3, 7), (10, 14)], start=14)
+SCA10 = dict(umi=[(0, 3), (7, 10)], bc=[(3, 7), (10, 16)], start=16)
+COMPOSITES = []
+for _n in (14, 16, 17):
+    COMPOSITES += [composite_unit('DamID2_c8_u3_cs2', DAMID2, CS2, _n, 'dam'),
+                   composite_unit('DamID2andT_SCA', SCA8, SCA8, _n, 'dam'),
+                   composite_unit('DamID2andT_SCA6', SCA10, SCA8, _n, 'tx+damtags')]
+UNITS += COMPOSITES
+
+
+# SCCHIC_384w_c8_u3_pdt (CHICTV): scCHIC layout without random primer; read 1 is cut at the template-switch oligo and the (up
+# to) six bases before it are recorded as transcript UMI
+PDT_P = 'R[0].sequence[12:].find("AGACTCTTT")'
+UNITS.append(custom(
+    'SCCHIC_384w_c8_u3_pdt', 'dm.SCCHIC_384w_c8_u3_pdt(barcodeFileParser=PARSER, indexFileParser=None, indexFileAlias=None)', {
+        'raw_barcode_and_umi_tags': 'all(o.tags["bc"] == R[0].sequence[3:11] and o.tags["RX"] == R[0].sequence[0:3] and '
+                                    'o.tags["RQ"] == ENC(R[0].qual[0:3]) and o.tags["MX"] == "CTV" for o in out)',
+        'ligation_tags': 'all(o.tags["lh"] == R[0].sequence[11:13] and o.tags["lq"] == ENC(R[0].qual[11:13]) for o in out)',
+        'read1_from_the_insert_start_up_to_the_oligo':
+            '%s >= 0 and out[0].sequence == R[0].sequence[12:12 + %s] and out[0].qualities == R[0].qual[12:12 + %s]' % (PDT_P, PDT_P, PDT_P),
+        'transcript_umi_is_the_bases_before_the_oligo':
+            'all(o.tags["tu"] == R[0].sequence[12 + max(0, %s - 6):12 + %s] for o in out)' % (PDT_P, PDT_P),
+        'read2_emitted_whole': 'out[1].sequence == R[1].sequence and out[1].qualities == R[1].qual and all(out[m].plus == R[m].plus for m in range(2))',
+        'one_output_per_mate': 'len(out) == 2',
+    }, 'CHICTV: scCHIC layout (skip one base after the barcode), read 1 cut at the first template-switch oligo of the insert'))
+
+
+def tchic_replay(inputs, clause):
+    """real SCCHIC_384w_c8_u3_cs2 on a transcriptome bleed-through pair (read 1 insert holds the cell's CS2 barcode + TTTTT)
+    whose mates have different qualities"""
+    import importlib
+    import sys
+    from pyvc.loader import REPO
+    if REPO not in sys.path:
+        sys.path.insert(0, REPO)
+    dm = importlib.import_module('singlecellmultiomics.modularDemultiplexer.demultiplexModules')
+    fq = importlib.import_module('singlecellmultiomics.fastqProcessing.fastqIterator')
+
+    class Parser:
+        def getIndexCorrectedBarcodeAndHammingDistance(self, barcode=None, alias=None, **k):
+            return ('7', barcode, 0)
+
+        def __getitem__(self, alias):
+            return {'ACGTACGT': '7'}
+    s = dm.SCCHIC_384w_c8_u3_cs2(barcodeFileParser=Parser(), indexFileParser=None, indexFileAlias=None)
+    r1 = 'ACG' + 'AAAACCCC' + 'T' + 'GGCATC' + 'ACGTACGT' + 'TTTTT' + 'GATTACAGATTACA'
+    r2 = 'CTAGCTAGGATCGATCCTAGAAGGAGAG'
+    q1 = ''.join(chr(40 + (i % 20)) for i in range(len(r1)))
+    q2 = ''.join(chr(70 - (i % 20)) for i in range(len(r2)))
+    recs = [fq.FastqRecord('@NS500:1:FC:1:11101:100:200 1:N:0:ACGT', r1, '+', q1),
+            fq.FastqRecord('@NS500:1:FC:1:11101:100:200 2:N:0:ACGT', r2, '+', q2)]
+    out = s.demultiplex(recs)
+    failed = []
+    n = len(out[1].sequence)
+    if not (r2.startswith(out[1].sequence) and out[1].qualities == q2[:n]):
+        failed.append({'clause': 'emitted_read2_is_a_prefix_of_mate_2_with_its_own_qualities', 'sequence': out[1].sequence,
+                       'qualities': out[1].qualities, 'expected_qualities': q2[:n]})
+    if out[0].sequence != r1[12:] or out[0].qualities != q1[12:]:
+        failed.append({'clause': 'emitted_read1'})
+    obs = {'outcome': 'return', 'value': {'dt': out[0].tags.get('dt'), 'r2': out[1].sequence, 'q2': out[1].qualities}}
+    return {'status': 'confirmed' if failed else 'not-reproduced', 'observed': obs, 'failed': failed}
+
+
+for _u in UNITS:
+    if _u.name == 'layout[SCCHIC_384w_c8_u3_cs2]':
+        _u.replay = tchic_replay
+
+
+def composite_replay(cls_name):
+    def replay(inputs, clause):
+        """real composite strategy with a parser that knows the observed barcode under both aliases (a pair accepted by the
+        DamID and by the transcriptome demultiplexer); also pushed through the real loader with real FastqHandle sinks"""
+        import gzip
+        import importlib
+        import io
+        import os
+        import shutil
+        import sys
+        import tempfile
+        import types
+        from contextlib import redirect_stdout
+        from pyvc.loader import REPO
+        if REPO not in sys.path:
+            sys.path.insert(0, REPO)
+        dm = importlib.import_module('singlecellmultiomics.modularDemultiplexer.demultiplexModules')
+        fq = importlib.import_module('singlecellmultiomics.fastqProcessing.fastqIterator')
+        L = importlib.import_module('singlecellmultiomics.modularDemultiplexer.demultiplexingStrategyLoader')
+        H = importlib.import_module('singlecellmultiomics.fastqProcessing.fastqHandle')
+
+        class Parser:
+            def getIndexCorrectedBarcodeAndHammingDistance(self, barcode=None, alias=None, **k):
+                return ('7', barcode, 0)
+
+            def __getitem__(self, alias):
+                return {'ACGTACGT': '7'}
+        s = getattr(dm, cls_name)(barcodeFileParser=Parser(), indexFileParser=None, indexFileAlias=None)
+        r1, r2 = 'ACGTTGCAAGGCTAGCTTTGATTACAGATTACA', 'CTAGCTAGGATCGATCCTAGAAGGAGAG'
+        recs = [fq.FastqRecord('@NS500:1:FC:1:11101:100:200 1:N:0:ACGT', r1, '+', 'I' * len(r1)),
+                fq.FastqRecord('@NS500:1:FC:1:11101:100:200 2:N:0:ACGT', r2, '+', 'H' * len(r2))]
+        out = s.demultiplex(recs)
+        shape = type(out).__name__ if not isinstance(out, list) else [type(o).__name__ for o in out]
+        base = os.path.join(os.path.dirname(os.path.dirname(os.path.abspath(__file__))), '.scratch')
+        os.makedirs(base, exist_ok=True)
+        d = tempfile.mkdtemp(prefix='c02c_', dir=base)
+        try:
+            paths = []
+            for m, r in enumerate(recs):
+                p = os.path.join(d, 'R%d.fastq.gz' % (m + 1))
+                with gzip.open(p, 'wt') as f:
+                    f.write('%s\n%s\n+\n%s\n' % (r.header, r.sequence, r.qual))
+                paths.append(p)
+            me = types.SimpleNamespace(indexParser=None, barcodeParser=None)
+            target = H.FastqHandle(os.path.join(d, 'target'), pairedEnd=True)
+            reject = H.FastqHandle(os.path.join(d, 'reject'), pairedEnd=True)
+            with redirect_stdout(io.StringIO()):
+                processed, yields = L.DemultiplexingStrategyLoader.demultiplex(me, paths, strategies=[s], library='LIB',
+                                                                               targetFile=target, rejectHandle=reject)
+            target.close()
+            reject.close()
+            n_t = [len(gzip.open(os.path.join(d, 'targetR%d.fastq.gz' % (m + 1)), 'rt').read().splitlines()) for m in range(2)]
+            n_r = [len(gzip.open(os.path.join(d, 'rejectR%d.fastq.gz' % (m + 1)), 'rt').read().splitlines()) for m in range(2)]
+        finally:
+            shutil.rmtree(d, ignore_errors=True)
+        obs = {'outcome': 'return', 'value': {'demultiplex_returned': shape, 'loader_processed': processed, 'loader_yields': dict(yields),
+                                              'target_lines': n_t, 'reject_lines': n_r}}
+        failed = []
+        if not (isinstance(out, list) and len(out) == 2):
+            failed.append({'clause': 'one_output_per_mate', 'returned': shape})
+        if n_t != [4, 4] or n_r != [0, 0]:
+            failed.append({'clause': 'C01: accepted pair written once', 'target_lines': n_t, 'reject_lines': n_r})
+        return {'status': 'confirmed' if failed else 'not-reproduced', 'observed': obs, 'failed': failed}
+    return replay
+
+
+for _u in COMPOSITES:
+    _u.replay = composite_replay(_u.name[len('layout['):].split(';')[0])
